@@ -1,6 +1,9 @@
 """C09: no peer behaviour wedges the endpoint - link loss at every byte offset ends in a clean, reusable state."""
 import threading
 import time
+import types
+
+from typing import List
 
 from engine.chx import fin, pick
 from oracles import refe37
@@ -132,6 +135,89 @@ def real_threads():
     return {"state": "confirmed", "paths": n, "extra": "real threads, every cut offset of one frame, both session states"}
 
 
+class _Stall(Exception):
+    pass
+
+
+def tcp_lifecycle(ops: List[int], n: int) -> bool:
+    """
+    pre: len(ops) <= 3
+    pre: all(0 <= o <= 2 for o in ops)
+    pre: 1 <= n <= 3
+    post: _
+    """
+    # TcpConnection flag protocol over a history of connections on ONE object: op 0 = disable()/disconnect() while no receiver is
+    # running (link already down), op 1 = a connection whose peer sends n bytes and closes, op 2 = a connection that is closed
+    # locally (stop flag raised by disconnect() while the receiver loop runs). After any such history the next connection's
+    # receiver reads what the peer sends, reports the close exactly once and leaves every flag at rest.
+    import secsgem.common.tcp_connection as tc
+    import secsgem.hsms
+
+    class Conn(tc.TcpConnection):
+        def enable(self):
+            pass
+
+        def disable(self):
+            pass
+
+    conn = Conn(secsgem.hsms.HsmsSettings())
+    got, closed = [], []
+    conn.on_data.register(lambda d: got.append(bytes(d["data"])))
+    conn.on_disconnected.register(lambda d: closed.append(1))
+    sleeps = [0]
+
+    def sleep(_t):
+        sleeps[0] += 1
+        if sleeps[0] > 20:
+            raise _Stall()                 # the receiver loop only sleeps: inbound bytes are never read
+
+    class Sock:
+        def __init__(self, chunks, local_close):
+            self.chunks, self.local_close = list(chunks), local_close
+
+        def fileno(self):
+            return 3
+
+        def recv(self, size):
+            if self.local_close:
+                # disconnect() from another thread: raises the flags the way the real method does up to its busy wait
+                conn._disconnecting = True
+                conn._stop_thread = True
+                self.local_close = False
+                raise OSError(11, "would block")
+            return self.chunks.pop(0) if self.chunks else b""
+
+        def close(self):
+            pass
+
+    tc.select.select = lambda r, w, x, t=None: (list(r), [], [])
+    tc.format_hex = lambda d: ""
+    tc.time = types.SimpleNamespace(sleep=sleep, time=time.time)      # only tcp_connection's view of the time module
+
+    def connection(chunks, local_close):
+        conn._sock = Sock(chunks, local_close)
+        conn._connected = True
+        try:
+            conn._TcpConnection__receiver_thread()
+        except _Stall:
+            return False
+        if local_close:
+            conn._disconnecting = False    # the last statement of disconnect(), after its busy wait saw the thread end
+        return True
+
+    for o in ops:
+        if o == 0:
+            conn.disconnect()
+        elif not connection([b"x"] if o == 1 else [], o == 2):
+            return False
+    del got[:], closed[:]
+    payload = bytes(range(65, 65 + n))
+    if not connection([payload], False):
+        return False
+    return fin(got == [payload] and closed == [1] and not conn._thread_running and not conn._stop_thread
+               and not conn.disconnecting and not conn._connected)
+
+
 OBLIGATIONS = [
     dict(name="cut_then_close", fn="cut_then_close", timeout=900,
          parts={"quick": ["j == %d and len(body) <= 2" % j for j in range(16)],
@@ -140,8 +226,15 @@ OBLIGATIONS = [
                     "_on_connected/send_separate_req", "Protocol.send_message", "BlockSendInfo.wait", "ByteQueue"],
          bounds="arbitrary frame header, body <= 2 (thorough <= 4) bytes, cut at every offset j of the frame (0 = between frames), NOT_SELECTED / "
                 "SELECTED, linktest timer idle or in the middle of its callback, then the close sequence of the connection, then a new connection with a Select.req",
-         outside="TcpServerConnection/TcpClientConnection enable()/disable() stop-flag handshakes and TcpConnection.disconnect busy "
-                 "waits (spin protocols around real sockets/select/sleep: not encodable, NOT claimed)"),
+         outside="TcpServerConnection/TcpClientConnection enable()/disable() stop-flag handshakes (accept / connect threads around real "
+                 "sockets: NOT claimed); the flag protocol of TcpConnection itself is tcp_lifecycle"),
+    dict(name="tcp_lifecycle", fn="tcp_lifecycle", timeout=600,
+         functions=["TcpConnection.disconnect", "TcpConnection.__receiver_thread/__receiver_thread_read_data"],
+         bounds="one TcpConnection object, every history of <= 3 operations out of {disconnect() while no receiver runs, a connection "
+                "closed by the peer, a connection closed locally}, then a connection on which the peer sends 1..3 bytes and closes: "
+                "bytes delivered, close reported once, flags at rest; socket/select/sleep are contract stubs, each connection's "
+                "receiver runs to completion (sequential)",
+         outside="preemption between disconnect() and the receiver thread (busy-wait spin protocol on real threads); accept/connect threads"),
     dict(name="real_threads", fn="real_threads", kind="native", timeout=600,
          functions=["the same callbacks on real ProtocolDispatcher threads"],
          bounds="16 cut offsets x 2 session states, 3 s limit per disconnect (enumeration)"),
